@@ -91,6 +91,35 @@ func runContentLookup(o *Out, r *rand.Rand, thorough bool, _ []string) {
 			nd.stop()
 		}
 	}
+	// a node as it starts in production: the table's init check is on, there are no boot nodes and no stored nodes. Its
+	// first refresh runs lookups on the empty table; a content lookup issued at once has to come back (not found) as well.
+	{
+		mn := newMemNet()
+		lone := startNode(mn, r, nodeOpts{ip: net.IP{34, 22, 1, 1}, port: 9940, utpLimit: 10, initCheck: true})
+		key := []byte("cl-empty-table")
+		idh := sha256.Sum256(key)
+		ch := make(chan error, 1)
+		go func() {
+			defer func() {
+				if rec := recover(); rec != nil {
+					ch <- fmt.Errorf("panic: %v", rec)
+				}
+			}()
+			_, _, err := lone.p.ContentLookup(key, idh[:])
+			ch <- err
+		}()
+		out := "wedged"
+		select {
+		case err := <-ch:
+			out = "notfound"
+			if err == nil {
+				out = "found genuine=0"
+			}
+		case <-time.After(25 * time.Second):
+		}
+		o.Case("clookup holders=0 size=0 nodes=1 emptytable=1", out)
+		lone.stop()
+	}
 	// a wide network: far more peers answer than a result holds. The asker knows the 16 peers FARTHEST from the content;
 	// only the three farthest of those (asked last) name the closer peers; the closest of all holds the content.
 	wide := 1
